@@ -1048,12 +1048,12 @@ theorem tapLeafHash_spec (sha : Bytes → Bytes) (xonlyOK : Bytes → Bool) (w :
     (hkey : xonlyOK (cbt.take 32) = true)
     (hraw : fromEnd w.items (if a then 3 else 2) = some raw) (hrl : raw.length < 2 ^ 63) :
     tapLeafHash Cfg.repaired sha xonlyOK w = some (Spec.Sighash.tapleafHash sha (v0.toNat &&& 0xFE) raw) := by
-  have c0 : cmpAt Gen.cbParseCmp 0 ((cbt.length + 1) % 32) = false := by
-    simp [cmpAt, Gen.cbParseCmp, cmpOp, hlen1]
-  have c1 : cmpAt Gen.cbParseCmp 1 (cbt.length + 1) = false := by
-    simp [cmpAt, Gen.cbParseCmp, cmpOp]; omega
-  have c2 : cmpAt Gen.cbParseCmp 2 (cbt.length + 1) = false := by
-    simp [cmpAt, Gen.cbParseCmp, cmpOp]; omega
+  have c0 : cmpAt Gen.txCbParseCmp 0 ((cbt.length + 1) % 32) = false := by
+    simp [cmpAt, Gen.txCbParseCmp, cmpOp, hlen1]
+  have c1 : cmpAt Gen.txCbParseCmp 1 (cbt.length + 1) = false := by
+    simp [cmpAt, Gen.txCbParseCmp, cmpOp]; omega
+  have c2 : cmpAt Gen.txCbParseCmp 2 (cbt.length + 1) = false := by
+    simp [cmpAt, Gen.txCbParseCmp, cmpOp]; omega
   have hb : (v0.toNat &&& 0xFE) ≤ 255 := by
     have := v0.toNat_lt
     exact Nat.le_trans (Nat.and_le_left) (by omega)
@@ -1227,5 +1227,94 @@ theorem no_codesep_strip (cs : List Cmd) (b : Bytes) (wf : ∀ c ∈ cs, CmdWF c
   have := stripCodeSep_serCmds cs b [] b.length wf h hno (by omega)
   rw [List.append_nil, stripCodeSep_nil, List.append_nil] at this
   exact this
+
+/-! ### digest consumers: finalize_p2tr_multisig -/
+
+theorem sigHash_framed (H : Hashes) (x : Bytes → Bool) (i ht : Nat) : Framed (fun o => sigHash Cfg.repaired H x o i ht) :=
+  runQuery_framed H x (.auto i ht)
+
+/-- the digest the object answers for hash type `ht` of input `i` (the BIP341 message hash for a taproot input) -/
+def digestFor (H : Hashes) (x : Bytes → Bool) (o : TxObj) (i ht : Nat) : Option SigHash :=
+  (sigHash Cfg.repaired H x o i ht).map (·.1)
+
+/-- signature element `s` is no match for `point`: it is empty, or it fails against the digest of its own hash type -/
+def NoMatch (H : Hashes) (x : Bytes → Bool) (verify : Bytes → Bytes → Bytes → Option Bool) (o : TxObj) (i : Nat)
+    (point s : Bytes) : Prop :=
+  schnorrSigKind s = .skip ∨
+  ∃ ht body msg, schnorrSigKind s = .sig ht body ∧ digestFor H x o i ht = some (.bytes msg) ∧ verify point msg body = some false
+
+theorem pickSig_spec (H : Hashes) (x : Bytes → Bool) (verify : Bytes → Bytes → Bytes → Option Bool) (i : Nat) (point : Bytes)
+    (o : TxObj) (sigs : List Bytes) (pick : Option Bytes) (o' : TxObj)
+    (h : pickSig Cfg.repaired H x verify i point o sigs = some (pick, o')) :
+    o' = o ∧
+    match pick with
+    | some s => ∃ pre post ht body msg, sigs = pre ++ s :: post ∧ schnorrSigKind s = .sig ht body ∧
+        digestFor H x o i ht = some (.bytes msg) ∧ verify point msg body = some true ∧
+        ∀ s' ∈ pre, NoMatch H x verify o i point s'
+    | none => ∀ s' ∈ sigs, NoMatch H x verify o i point s' := by
+  induction sigs with
+  | nil =>
+    simp only [pickSig, Option.some.injEq, Prod.mk.injEq] at h
+    obtain ⟨rfl, rfl⟩ := h
+    exact ⟨rfl, by intro s' hs; cases hs⟩
+  | cons sig r ih =>
+    unfold pickSig at h
+    cases hk : schnorrSigKind sig with
+    | skip =>
+      rw [hk] at h
+      obtain ⟨e, hp⟩ := ih h
+      refine ⟨e, ?_⟩
+      cases pick with
+      | some s =>
+        obtain ⟨pre, post, ht, body, msg, h1, h2, h3, h4, h5⟩ := hp
+        refine ⟨sig :: pre, post, ht, body, msg, by simp [h1], h2, h3, h4, ?_⟩
+        intro s' hs
+        rcases List.mem_cons.mp hs with rfl | hs
+        · exact Or.inl hk
+        · exact h5 s' hs
+      | none =>
+        intro s' hs
+        rcases List.mem_cons.mp hs with rfl | hs
+        · exact Or.inl hk
+        · exact hp s' hs
+    | bad => rw [hk] at h; cases h
+    | sig ht body =>
+      rw [hk] at h
+      simp only at h
+      rcases frame_step (sigHash_framed H x i ht) o with ⟨h1, _⟩ | ⟨a, h1, _⟩
+      · rw [h1] at h; cases h
+      · rw [h1] at h
+        cases a with
+        | int n => cases h
+        | bytes msg =>
+          simp only at h
+          have hd : digestFor H x o i ht = some (.bytes msg) := by simp [digestFor, h1]
+          cases hv : verify point msg body with
+          | none => rw [hv] at h; cases h
+          | some b =>
+            rw [hv] at h
+            cases b with
+            | true =>
+              simp only [Option.some.injEq, Prod.mk.injEq] at h
+              obtain ⟨rfl, rfl⟩ := h
+              exact ⟨rfl, [], r, ht, body, msg, rfl, hk, hd, hv, by intro s' hs; cases hs⟩
+            | false =>
+              simp only at h
+              obtain ⟨e, hp⟩ := ih h
+              refine ⟨e, ?_⟩
+              have nm : NoMatch H x verify o i point sig := Or.inr ⟨ht, body, msg, hk, hd, hv⟩
+              cases pick with
+              | some s =>
+                obtain ⟨pre, post, ht', body', msg', g1, g2, g3, g4, g5⟩ := hp
+                refine ⟨sig :: pre, post, ht', body', msg', by simp [g1], g2, g3, g4, ?_⟩
+                intro s' hs
+                rcases List.mem_cons.mp hs with rfl | hs
+                · exact nm
+                · exact g5 s' hs
+              | none =>
+                intro s' hs
+                rcases List.mem_cons.mp hs with rfl | hs
+                · exact nm
+                · exact hp s' hs
 
 end Buidl.Tx
